@@ -12,6 +12,7 @@ from mc import refcip as R, sim, wire as W
 
 ID = "C15"
 LEVEL = "exploration"
+ISOLATE_SHARDS = True        # every shard runs in a forked child of a pristine worker (mc/core.py)
 RULE = ("full product personality x request route path x service on a freshly configured simulator (UCMM subclass and main() "
         "--route-path/--simple argument parsing); every route-path text of the grammar p/l, p/l/p/l, JSON dict/list, JSON "
         "null/0/false over port and link alphabets. non-trivial = distinct (personality, route path, service) with a route path "
@@ -248,3 +249,9 @@ def replay(case):
     else:
         bad = check_text(case["text"], case["want"])
     return [m for k, m in bad]
+
+
+def preload():
+    """import the code under test once in the (pristine) worker; shard children are forked from it"""
+    from mc import sim as _sim
+    _sim.mods()
